@@ -39,7 +39,9 @@ func ing(ns, name string, annotations map[string]string, rules ...world.IngRule)
 	return i
 }
 
-func rule(host string, paths ...world.IngPath) world.IngRule { return world.IngRule{Host: host, Paths: paths} }
+func rule(host string, paths ...world.IngPath) world.IngRule {
+	return world.IngRule{Host: host, Paths: paths}
+}
 func pth(path, service string) world.IngPath {
 	return world.IngPath{Path: path, Type: "Prefix", Service: service, PortNum: 80}
 }
@@ -124,6 +126,72 @@ func Corpus() []CorpusScenario {
 				{{Op: pipeline.Delete, Obj: ing("ns1", "ing1", nil)}},
 				{{Op: pipeline.Update, Obj: BasicSecret("ns1", "basic-ok", 1)}},
 				{{Op: pipeline.Delete, Obj: BasicSecret("ns1", "basic-ok", 0)}},
+			},
+		},
+		{
+			// auth-url svc:// reaching the backend of another ingress, which then goes away
+			Name: "07-auth-url-svc-target-removed",
+			Opt:  Opt{},
+			H: [][]pipeline.Change{
+				creates(svc("ns1", "svc1"), EndpointsRef("ns1", "svc1", "http", 8080, []string{"10.1.0.1"}, nil, 0),
+					svc("ns1", "svc2"), EndpointsRef("ns1", "svc2", "http", 8080, []string{"10.1.1.1"}, nil, 0),
+					ing("ns1", "ing1", map[string]string{"auth-url": "svc://svc2:80/check"}, rule("a.example", pth("/", "svc1"))),
+					ing("ns1", "ing2", nil, rule("b.example", pth("/", "svc2")))),
+				{{Op: pipeline.Delete, Obj: ing("ns1", "ing2", nil)}},
+				creates(ing("ns1", "ing2", nil, rule("b.example", pth("/", "svc2")))),
+				{{Op: pipeline.Delete, Obj: svc("ns1", "svc2")}},
+			},
+		},
+		{
+			// the same with the rules placed in the frontend
+			Name: "08-auth-url-svc-frontend-placement-target-removed",
+			Opt:  Opt{},
+			H: [][]pipeline.Change{
+				creates(svc("ns1", "svc1"), EndpointsRef("ns1", "svc1", "http", 8080, []string{"10.1.0.1"}, nil, 0),
+					svc("ns1", "svc2"), EndpointsRef("ns1", "svc2", "http", 8080, []string{"10.1.1.1"}, nil, 0),
+					ing("ns1", "ing1", map[string]string{"auth-url": "svc://svc2:80/check", "auth-external-placement": "frontend"}, rule("a.example", pth("/", "svc1"))),
+					ing("ns1", "ing2", nil, rule("b.example", pth("/", "svc2")))),
+				{{Op: pipeline.Delete, Obj: ing("ns1", "ing2", nil)}},
+				creates(ing("ns1", "ing2", nil, rule("b.example", pth("/", "svc2")))),
+			},
+		},
+		{
+			// oauth2_proxy found on the /oauth2 path of another ingress, which then goes away
+			Name: "09-oauth-backend-of-other-ingress-removed",
+			Opt:  Opt{},
+			H: [][]pipeline.Change{
+				creates(svc("ns1", "svc1"), EndpointsRef("ns1", "svc1", "http", 8080, []string{"10.1.0.1"}, nil, 0),
+					svc("ns1", "svc2"), EndpointsRef("ns1", "svc2", "http", 8080, []string{"10.1.1.1"}, nil, 0),
+					ing("ns1", "ing1", map[string]string{"oauth": "oauth2_proxy"}, rule("a.example", pth("/", "svc1"))),
+					ing("ns1", "ing2", nil, rule("b.example", pth("/oauth2", "svc2")))),
+				{{Op: pipeline.Delete, Obj: ing("ns1", "ing2", nil)}},
+			},
+		},
+		{
+			// strict-host: a host without root path borrows _error404, then the default backend appears
+			Name: "10-strict-host-error404-then-default-backend",
+			Opt:  Opt{DefaultService: "ns1/svc1"},
+			H: [][]pipeline.Change{
+				creates(pglobal(map[string]string{"strict-host": "true"}),
+					svc("ns1", "svc2"), EndpointsRef("ns1", "svc2", "http", 8080, []string{"10.1.1.1"}, nil, 0),
+					ing("ns1", "ing1", nil, rule("b.example", pth("/app", "svc2")))),
+				creates(svc("ns1", "svc1"), EndpointsRef("ns1", "svc1", "http", 8080, []string{"10.1.0.1"}, nil, 0)),
+				{{Op: pipeline.Delete, Obj: svc("ns1", "svc1")}},
+			},
+		},
+		{
+			// strict-host: a host without root path borrows the root backend of the default host,
+			// whose service is then deleted
+			Name: "11-strict-host-default-host-backend-removed",
+			Opt:  Opt{},
+			H: [][]pipeline.Change{
+				creates(pglobal(map[string]string{"strict-host": "true"}),
+					svc("ns1", "svc2"), EndpointsRef("ns1", "svc2", "http", 8080, []string{"10.1.1.1"}, nil, 0),
+					svc("ns1", "svc3"), EndpointsRef("ns1", "svc3", "http", 8080, []string{"10.1.2.1"}, nil, 0),
+					ing("ns1", "ing1", nil, rule("b.example", pth("/app", "svc3"))),
+					ing("ns1", "ing2", nil, rule("", pth("/", "svc2")))),
+				{{Op: pipeline.Delete, Obj: svc("ns1", "svc2")}},
+				{{Op: pipeline.Delete, Obj: ing("ns1", "ing2", nil)}},
 			},
 		},
 	}
